@@ -3,6 +3,7 @@ pub mod c10;
 pub mod c11;
 pub mod c15;
 pub mod c17;
+pub mod c19;
 pub mod c18;
 
 pub fn lookup(id: &str) -> Option<&'static dyn Prop> {
@@ -11,6 +12,7 @@ pub fn lookup(id: &str) -> Option<&'static dyn Prop> {
         "C11" => Some(&c11::C11),
         "C15" => Some(&c15::C15),
         "C17" => Some(&c17::C17),
+        "C19" => Some(&c19::C19),
         "C18" => Some(&c18::C18),
         _ => None,
     }
